@@ -17,9 +17,14 @@ using namespace BaseGraph;
 static E1Config makeCfg(const std::string &prop, Family fam, bool directed, bool labelled, const std::string &variant, const std::string &name, const std::string &tier) {
     E1Config c;
     c.name = name + "/" + variant;
-    bool small = variant == "n2";
+    bool small = variant == "n2" || variant == "n2x";
     // ---- bounds
     if (variant == "n2") { c.startSizes = {0, 1, 2}; c.maxN = 2; c.maxDepth = -1; c.completeKey = true; }
+    else if (variant == "n2x") { c.startSizes = {0, 1, 2}; c.maxN = 2; c.maxDepth = -1; c.completeKey = true; alphaVariant() = 1; if (fam == WEIGHTED) weightScale() = 0x1p999; } // unusual values
+    else if (variant == "n2dedup") { c.startSizes = {1, 2}; c.maxN = 2; c.maxDepth = -1; c.completeKey = true; }
+    else if (variant == "n1s4") { c.startSizes = {0, 1}; c.maxN = 1; c.maxDepth = -1; c.completeKey = true; }
+    else if (variant == "big") { c.startSizes = {}; c.bigSizes = {5, 6}; c.maxN = 6; c.maxDepth = 2; c.completeKey = false; }
+    else if (variant == "bigger") { c.startSizes = {}; c.bigSizes = {10, 17, 34}; c.maxN = 34; c.maxDepth = 1; c.completeKey = false; }
     else if (variant == "n2tiny") { c.startSizes = {1, 2}; c.maxN = 2; c.maxDepth = -1; c.completeKey = true; weightScale() = 0x1p-62; } // weights +-2^-60, 2^-62, 0
     else if (variant == "n1") { c.startSizes = {0, 1}; c.maxN = 1; c.maxDepth = -1; c.completeKey = true; }
     else if (variant == "n3" || variant == "n3a" || variant == "n3b") { c.startSizes = {0, 1, 2, 3}; c.maxN = 3; c.maxDepth = -1; c.completeKey = false; }
@@ -30,15 +35,21 @@ static E1Config makeCfg(const std::string &prop, Family fam, bool directed, bool
     else if (variant == "n4d5") { c.startSizes = {3, 4}; c.maxN = 4; c.maxDepth = 5; c.completeKey = false; }
     else { fprintf(stderr, "unknown variant %s\n", variant.c_str()); exit(2); }
     // ---- value alphabets
-    if (fam == PLAIN) {
+    if (fam == PLAIN && (name == "dir_empty" || name == "und_empty")) { c.addValues = {0}; c.setValues = {0}; }
+    else if (fam == PLAIN) {
         if (!labelled) { c.addValues = {0}; c.setValues = {}; }
-        else if (small || variant == "n1") { c.addValues = {0, 1, 2}; c.setValues = {0, 1, 2}; }
+        else if (small || variant == "n1" || variant == "n1s4") { c.addValues = {0, 1, 2}; c.setValues = {0, 1, 2}; }
         else { c.addValues = {1, 2}; c.setValues = {1, 2}; } // fast key: default label excluded so that an orphan entry is visible
+    } else if (fam == MULTI && variant == "n2x") {
+        c.addValues = {1, 65536, 3000000000L}; c.setValues = {0, 65536, 3000000000L}; c.removeMultiValues = {1, 65536, 3000000000L}; c.maxValue = 4000000000L;
+        c.allowedValues = {1, 65536, 65537, 3000000000L, 3000000001L, 3000065536L};
+    } else if (fam == WEIGHTED && variant == "n2x") {
+        c.addValues = {-2, 0, 2, 3}; c.setValues = c.addValues; // x 2^999: every partial sum is a small multiple of 2^999, hence exact
     } else if (fam == MULTI) {
-        if (small || variant == "n1") { c.addValues = {0, 1, 2, 3}; c.setValues = {0, 1, 2, 3}; c.removeMultiValues = {0, 1, 2, 3}; c.maxValue = 4; }
+        if (small || variant == "n1" || variant == "n1s4") { c.addValues = {0, 1, 2, 3}; c.setValues = {0, 1, 2, 3}; c.removeMultiValues = {0, 1, 2, 3}; c.maxValue = 4; }
         else { c.addValues = {0, 1, 2}; c.setValues = {0, 1, 2}; c.removeMultiValues = {0, 1, 2}; c.maxValue = 2; }
     } else { // WEIGHTED, weights x4: -1.5, 0, 0.25, 2
-        if (small || variant == "n1") { c.addValues = {-6, 0, 1, 8}; }
+        if (small || variant == "n1" || variant == "n1s4") { c.addValues = {-6, 0, 1, 8}; }
         else if (variant == "n2tiny") { c.addValues = {-4, 0, 1, 4}; }
         else if (variant == "n3b") { c.addValues = {0, 1}; }
         else { c.addValues = {-6, 8}; }
@@ -47,12 +58,21 @@ static E1Config makeCfg(const std::string &prop, Family fam, bool directed, bool
     // ---- operation kinds
     std::set<OpKind> base = {ADD, REMOVE, REMOVE_LOOPS, REMOVE_VERTEX, CLEAR, RESIZE};
     if (fam != WEIGHTED) base.insert(ADD_DEFAULT);
-    if (fam == PLAIN && directed) base.insert(ADD_RECIP);
+    if ((fam == PLAIN || fam == MULTI) && directed) base.insert(ADD_RECIP);
+    // depth-capped / 3-vertex variants use the fast key, which needs the default label out of the alphabet
+    if (fam == PLAIN && labelled && !(small || variant == "n1" || variant == "n1s4")) base.erase(ADD_DEFAULT);
     if (prop == "C01" || prop == "C02") {
         c.kinds = base;
     } else if (prop == "C03") {
         c.kinds = base;
         c.kinds.insert(SET_VALUE);
+        if (variant == "n2dedup") { // an edge that survives removeDuplicateEdges keeps its label
+            c.kinds = {ADD, REMOVE, DEDUP, SET_VALUE};
+            c.force = true;
+            c.maxCopies = 2;
+            c.addValues = {1, 2};
+            c.setValues = {1, 2};
+        }
     } else if (prop == "C04") {
         c.kinds = base;
         c.kinds.insert(REMOVE_MULTI);
@@ -79,6 +99,7 @@ static E1Config makeCfg(const std::string &prop, Family fam, bool directed, bool
             if (small) c.kinds.insert(ADD_DEFAULT);
             c.addValues = {1, 2};
             c.maxValue = 2;
+            if (variant == "n2x") { c.addValues = {3000000000L, 2500000000L}; c.maxValue = 4000000000L; c.allowedValues = {3000000000L, 2500000000L}; c.kinds.erase(ADD_DEFAULT); }
         } else {
             c.kinds = {ADD, DEDUP};
             c.addValues = {-6, 8};
@@ -90,10 +111,13 @@ static E1Config makeCfg(const std::string &prop, Family fam, bool directed, bool
     }
     if (small) c.statelessDepth = (prop == "C16") ? 3 : (labelled ? 3 : 4);
     if (small || variant == "n1") c.silentSuffix = 2;
+    if (variant == "n1s4") { c.silentSuffix = 4; c.statelessDepth = 4; }
     c.silentReduced = tier != "thorough";
     c.observeEveryTransition = (c.maxDepth >= 0 || c.maxN <= 2) && !(prop == "C16" && tier != "thorough" && c.maxN <= 2 && labelled) && !(prop == "C06" && c.maxN > 2 && tier != "thorough");
     c.mergeDifferential = (small || variant == "n1" || variant == "n2tiny") && !(prop == "C16" && tier != "thorough");
     if (prop == "C16" && tier != "thorough") c.silentSuffixStates = 1500;
+    if (variant == "n2x") { c.silentSuffixStates = 300; c.mergeDifferential = false; c.statelessDepth = 2; c.allPairsCap = 600; }
+    if (!c.bigSizes.empty()) { c.editNeighbours = false; c.allPairsCap = 300; c.observeEveryTransition = false; }
     if (prop == "C17" || prop == "C17F") { // configuration-matrix runs (C17): the plain search only
         c.silentSuffix = 0;
         c.mergeDifferential = false;
@@ -157,6 +181,8 @@ int main(int argc, char **argv) {
     CFG("und_string", LabeledUndirectedGraph<std::string>, PLAIN, false, true)
 #endif
 #if GROUP == 3 || GROUP == -1
+    CFG("dir_empty", LabeledDirectedGraph<EmptyLabel>, PLAIN, true, true)
+    CFG("und_empty", LabeledUndirectedGraph<EmptyLabel>, PLAIN, false, true)
     CFG("dir_struct", LabeledDirectedGraph<UserLabel>, PLAIN, true, true)
     CFG("und_struct", LabeledUndirectedGraph<UserLabel>, PLAIN, false, true)
 #endif
